@@ -19,6 +19,7 @@ CYC-DELEGATE TrafficLight.get_state_at_time_step returns its cycle's answer for 
 import ast
 
 from ..core import AnalysisError, Finding, call_name, norm, walk_no_nested
+from ..effects import FnKey
 
 T = "commonroad/scenario/traffic_light.py"
 
@@ -135,6 +136,33 @@ class StateOf:
         return "%r.state" % self.elem
 
 
+class Cases:
+    """value depending on the path taken: [(facts, value)], facts = list of (Lin, strict) meaning Lin > 0 / >= 0,
+    or None when the path condition could not be expressed"""
+
+    def __init__(self, alts):
+        self.alts = alts
+
+    def __repr__(self):
+        return " | ".join("%r if %s" % (v, "?" if f is None else " and ".join("%r %s 0" % (l, ">" if st else ">=") for l, st in f)) for f, v in self.alts)
+
+
+def lift(fn, *vals):
+    """apply fn to plain values, distributing over Cases arguments"""
+    if not any(isinstance(v, Cases) for v in vals):
+        return fn(*vals)
+    combos = [([], [])]
+    for v in vals:
+        alts = v.alts if isinstance(v, Cases) else [([], v)]
+        new = []
+        for facts, args in combos:
+            for f2, x in alts:
+                nf = None if (facts is None or f2 is None) else facts + f2
+                new.append((nf, args + [x]))
+        combos = new
+    return Cases([(f, fn(*a)) for f, a in combos])
+
+
 class Unrecognised(Exception):
     pass
 
@@ -212,9 +240,93 @@ class Interp:
             return
         if isinstance(s, ast.Assert):
             return
+        if isinstance(s, ast.If):
+            pos, neg = self.cond_facts(s.test)
+            a, b = Interp(self.repo, self.cls, self.tparam), Interp(self.repo, self.cls, self.tparam)
+            a.env, b.env = dict(self.env), dict(self.env)
+            a.depth = b.depth = self.depth
+            for st in s.body:
+                a.exec(st)
+            for st in s.orelse:
+                b.exec(st)
+            for k in set(a.env) | set(b.env):
+                va, vb = a.env.get(k), b.env.get(k)
+                if va is vb:
+                    self.env[k] = va
+                    continue
+                if va is None or vb is None:
+                    raise Unrecognised("%s is assigned on one branch only" % k)
+                alts = []
+                for facts, v in ((pos, va), (neg, vb)):
+                    for f2, x in (v.alts if isinstance(v, Cases) else [([], v)]):
+                        alts.append((None if (facts is None or f2 is None) else facts + f2, x))
+                self.env[k] = Cases(alts)
+            return
         raise Unrecognised("statement %s" % norm(s)[:60])
 
+    def cond_facts(self, test):
+        """(facts if the test holds, facts if it does not) over linear terms; None = not expressible"""
+        if isinstance(test, ast.BoolOp) and isinstance(test.op, ast.And):
+            pos = []
+            for v in test.values:
+                p, _n = self.cond_facts(v)
+                if p is None:
+                    return None, None
+                pos += p
+            return pos, None
+        if isinstance(test, ast.UnaryOp) and isinstance(test.op, ast.Not):
+            p, n = self.cond_facts(test.operand)
+            return n, p
+        if not isinstance(test, ast.Compare):
+            return None, None
+        ops = [test.left] + list(test.comparators)
+        try:
+            vals = [self.ev(o) for o in ops]
+        except Unrecognised:
+            return None, None
+        if not all(isinstance(v, Lin) for v in vals):
+            return None, None
+        pos = []
+        for a, op, b in zip(vals, test.ops, vals[1:]):
+            if isinstance(op, ast.Lt):
+                pos.append((b - a, True))
+            elif isinstance(op, ast.LtE):
+                pos.append((b - a, False))
+            elif isinstance(op, ast.Gt):
+                pos.append((a - b, True))
+            elif isinstance(op, ast.GtE):
+                pos.append((a - b, False))
+            else:
+                return None, None
+        neg = None
+        if len(pos) == 1:
+            l, st = pos[0]
+            neg = [(-l, not st)]
+        return pos, neg
+
     def ev(self, e):
+        """evaluate; variables holding path-dependent values are expanded into one evaluation per path"""
+        names = sorted({n.id for n in ast.walk(e) if isinstance(n, ast.Name) and isinstance(self.env.get(n.id), Cases)})
+        if not names:
+            return self._ev(e)
+        combos = [([], {})]
+        for nm in names:
+            new = []
+            for facts, binds in combos:
+                for f2, x in self.env[nm].alts:
+                    new.append((None if (facts is None or f2 is None) else facts + f2, dict(binds, **{nm: x})))
+            combos = new
+        alts = []
+        for facts, binds in combos:
+            sub = Interp(self.repo, self.cls, self.tparam)
+            sub.env = dict(self.env, **binds)
+            sub.depth = self.depth
+            v = sub._ev(e)
+            for f2, x in (v.alts if isinstance(v, Cases) else [([], v)]):
+                alts.append((None if (facts is None or f2 is None) else facts + f2, x))
+        return Cases(alts)
+
+    def _ev(self, e):
         if isinstance(e, ast.Constant) and isinstance(e.value, int) and not isinstance(e.value, bool):
             return Lin({"1": e.value})
         if isinstance(e, ast.Name):
@@ -336,10 +448,57 @@ class Interp:
 # ----------------------------------------------------------------------------- rules
 
 
+def implied_fact(goal, strict, facts):
+    """goal > 0 (strict) / >= 0 follows from one of the facts, over the integers"""
+    for l, st in facts or []:
+        if l == goal and (st or not strict):
+            return True
+        if strict and not st and l == goal - Lin({"1": 1}):
+            return True
+        if not strict and st and l == goal + Lin({"1": 1}):
+            return True
+    return False
+
+
+def lookup_case(res, m, f, qn, facts, ret, multi):
+    """the rules on one path of get_state_at_time_step (facts: what is known on that path)"""
+    where = "" if not multi else " [path: %s]" % ("?" if facts is None else " and ".join("%r %s 0" % (l, ">" if st else ">=") for l, st in facts) or "always")
+    shape_ok = isinstance(ret, StateOf) and isinstance(ret.elem, Elem) and isinstance(ret.elem.idx, Idx)
+    res.check("CYC-LOOKUP", "the answer is the state of the element selected by a window index", shape_ok, m, f, "returns %r" % (ret,), "the reported state is not that of the cycle element whose window was found", qualname=qn)
+    if shape_ok:
+        idx = ret.elem.idx
+        mask = idx.mask
+        res.check("CYC-LOOKUP", "elements are selected from the cycle's own list", ret.elem.src == "elements", m, f, "selects from %s" % ret.elem.src, "the state is taken from another list than the one the windows were computed from", qualname=qn)
+        res.check("CYC-LOOKUP", "window test is strict (value < next start): windows are [start, next start)", mask.op == "<", m, f, "mask %r" % (mask,), "a time step exactly at a phase boundary is attributed to the previous phase (or the comparison is reversed)", qualname=qn)
+        res.check("CYC-LOOKUP", "index is (first start greater than the value) - 1", idx.shift == -1, m, f, "index %r" % (idx,), "the selected element is off by %d from the window containing the time step" % (idx.shift + 1), qualname=qn)
+        tb2 = mask.table
+        res.check("CYC-LOOKUP", "the searched table is the table of window starts", isinstance(tb2, Table) and tb2.first == tb2.base and tb2.src == "elements", m, f, "searched table %r" % (tb2,), "the lookup runs on another table than [start, start+d1, ..]", qualname=qn)
+        v = mask.value
+        if isinstance(v, Mod):
+            v = ModPlus(v, Lin())
+        if isinstance(v, Lin) and isinstance(tb2, Table):
+            # an unreduced time step is the reduced one only while 0 <= t - offset < T holds on this path
+            phase = v - tb2.base
+            same = phase == Lin({"t": 1, "off": -1})
+            lo = implied_fact(Lin({"t": 1, "off": -1}), False, facts)
+            hi = implied_fact(Lin({"T": 1, "off": 1, "t": -1}), True, facts)
+            res.check("CYC-LOOKUP", "an unreduced time step is used only inside the first period [offset, offset + T)" + where, same and lo and hi, m, f, "value %r searched without reduction%s" % (mask.value, where), "the time step is used without reduction modulo the period on a path that also admits steps %s: those are answered from the wrong window" % ("before the offset" if not lo else "beyond the first period" if not hi else "with another phase"), qualname=qn)
+            return
+        ok_v = isinstance(v, ModPlus)
+        res.check("CYC-LOOKUP", "the searched value is a reduced time step (x mod period) + shift" + where, ok_v, m, f, "value %r%s" % (mask.value, where), "the time step is not reduced modulo the cycle period: later periods (or steps before the offset) are answered wrongly", qualname=qn)
+        if ok_v and isinstance(tb2, Table):
+            md = v.m
+            res.check("CYC-LOOKUP", "reduction uses the floored modulo (result in [0, period) also before the offset)", md.kind == "%", m, f, "reduction %r" % (md,), "fmod keeps the sign of (t - offset): time steps before the offset give a negative value outside every window", qualname=qn)
+            res.check("CYC-LOOKUP", "the period is the total duration T", md.b == Lin({"T": 1}), m, f, "period %r" % (md.b,), "the period of the state sequence is not the sum of the durations", qualname=qn)
+            res.check("CYC-LOOKUP", "the reduced quantity is (t - offset)", md.a == Lin({"t": 1, "off": -1}), m, f, "reduces %r" % (md.a,), "the phase of the cycle is not counted from the time offset", qualname=qn)
+            res.check("CYC-LOOKUP", "value and table are shifted alike", v.shift == tb2.base, m, f, "value shift %r, table base %r" % (v.shift, tb2.base), "the reduced time step and the table of window starts use different origins", qualname=qn)
+
+
 def run(repo, res, tier):
     res.rule("CYC-TABLE", "table of window starts", 3)
     res.rule("CYC-LOOKUP", "window lookup of the reduced time step", 6)
     res.rule("CYC-DELEGATE", "traffic light asks its cycle", 2)
+    res.rule("CYC-FRESH", "the memoised table is refreshed by every setter of the cycle that changes what it is computed from", 2)
     m = repo.mod(T)
     c = m.classes.get("TrafficLightCycle")
     if c is None:
@@ -376,27 +535,9 @@ def run(repo, res, tier):
         raise AnalysisError("get_state_at_time_step uses a construct outside the analysed vocabulary: %s" % e)
     if ret is None:
         raise AnalysisError("get_state_at_time_step has no straight-line return")
-    shape_ok = isinstance(ret, StateOf) and isinstance(ret.elem, Elem) and isinstance(ret.elem.idx, Idx)
-    res.check("CYC-LOOKUP", "the answer is the state of the element selected by a window index", shape_ok, m, f, "returns %r" % (ret,), "the reported state is not that of the cycle element whose window was found", qualname=qn)
-    if shape_ok:
-        idx = ret.elem.idx
-        mask = idx.mask
-        res.check("CYC-LOOKUP", "elements are selected from the cycle's own list", ret.elem.src == "elements", m, f, "selects from %s" % ret.elem.src, "the state is taken from another list than the one the windows were computed from", qualname=qn)
-        res.check("CYC-LOOKUP", "window test is strict (value < next start): windows are [start, next start)", mask.op == "<", m, f, "mask %r" % (mask,), "a time step exactly at a phase boundary is attributed to the previous phase (or the comparison is reversed)", qualname=qn)
-        res.check("CYC-LOOKUP", "index is (first start greater than the value) - 1", idx.shift == -1, m, f, "index %r" % (idx,), "the selected element is off by %d from the window containing the time step" % (idx.shift + 1), qualname=qn)
-        tb2 = mask.table
-        res.check("CYC-LOOKUP", "the searched table is the table of window starts", isinstance(tb2, Table) and tb2.first == tb2.base and tb2.src == "elements", m, f, "searched table %r" % (tb2,), "the lookup runs on another table than [start, start+d1, ..]", qualname=qn)
-        v = mask.value
-        if isinstance(v, Mod):
-            v = ModPlus(v, Lin())
-        ok_v = isinstance(v, ModPlus)
-        res.check("CYC-LOOKUP", "the searched value is a reduced time step (x mod period) + shift", ok_v, m, f, "value %r" % (mask.value,), "the time step is not reduced modulo the cycle period: later periods (or steps before the offset) are answered wrongly", qualname=qn)
-        if ok_v and isinstance(tb2, Table):
-            md = v.m
-            res.check("CYC-LOOKUP", "reduction uses the floored modulo (result in [0, period) also before the offset)", md.kind == "%", m, f, "reduction %r" % (md,), "fmod keeps the sign of (t - offset): time steps before the offset give a negative value outside every window", qualname=qn)
-            res.check("CYC-LOOKUP", "the period is the total duration T", md.b == Lin({"T": 1}), m, f, "period %r" % (md.b,), "the period of the state sequence is not the sum of the durations", qualname=qn)
-            res.check("CYC-LOOKUP", "the reduced quantity is (t - offset)", md.a == Lin({"t": 1, "off": -1}), m, f, "reduces %r" % (md.a,), "the phase of the cycle is not counted from the time offset", qualname=qn)
-            res.check("CYC-LOOKUP", "value and table are shifted alike", v.shift == tb2.base, m, f, "value shift %r, table base %r" % (v.shift, tb2.base), "the reduced time step and the table of window starts use different origins", qualname=qn)
+    cases = ret.alts if isinstance(ret, Cases) else [([], ret)]
+    for facts, rv in cases:
+        lookup_case(res, m, f, qn, facts, rv, len(cases) > 1)
     # delegate
     tl = m.classes.get("TrafficLight")
     if tl is None:
@@ -412,4 +553,18 @@ def run(repo, res, tier):
     res.check("CYC-DELEGATE", "TrafficLight returns its cycle's answer", len(rets) == 1 and len(calls) == 1 and len(body) == 1 and norm(calls[0].func.value) in ("self.traffic_light_cycle", "self._traffic_light_cycle"), m, d, " ; ".join(norm(s) for s in body)[:120], "the traffic light does not report what its cycle reports", qualname=qn)
     for cl in calls:
         res.check("CYC-DELEGATE", "TrafficLight asks about the queried time step", [norm(a) for a in cl.args] + [norm(k.value) for k in cl.keywords] == [tp], m, cl, norm(cl), "the cycle is asked about another time step", qualname=qn)
+    # the table is a memo: the reported state follows the *current* definition only if every mutator refreshes it
+    from . import c11
+
+    eng = c11.Engine(repo, res)
+    memo = [k for k in c11.discover(repo) if k.cls is c]
+    if not memo:
+        res.note("the table of window starts is recomputed on every query (no memo found)")
+    for cache in memo:
+        for pn, pd in c.props.items():
+            if "set" not in pd:
+                continue
+            fk = FnKey(c, pd["set"], m, "set")
+            verdict, w, dirty = eng.detail(cache, fk)
+            res.check("CYC-FRESH", "%s[set] leaves %s fresh (%s)" % (pn, cache.name, verdict), verdict != "DIRTY", m, pd["set"], "TrafficLightCycle.%s setter changes what %s is computed from without refreshing it" % (pn, cache.name), "after the assignment the reported states still follow the old cycle definition", qualname="TrafficLightCycle.%s[set]" % pn)
     res.note("decided: the implementation is an instance of the table-lookup scheme and its symbolic value equals the specification; assumes positive integer durations and numpy semantics of cumsum / insert / argmax on a boolean mask with at least one True entry (guaranteed because the reduced value is < start + T = last table entry)")
